@@ -184,11 +184,12 @@ def needsDoubleQuotes (s : List Char) : Bool :=
 def singleQuoted (s : List Char) : List Char :=
   '\'' :: (s.flatMap fun c => if c == '\'' then ['\'', '\''] else [c]) ++ ['\'']
 
-/-- text written by `YamlSerializer::write_plain_or_quoted` (variant names) -/
+/-- text written by `YamlSerializer::write_plain_or_quoted` (names of enum variants with data, as mapping
+keys): plain exactly where `KeyScalarSink` writes a string key plain -/
 def plainOrQuoted (o : Opts) (f : ScalarFns) (s : List Char) : List Char :=
   if o.quoteAll then
     (if needsDoubleQuotes s then f.writeQuoted s else singleQuoted s)
-  else if f.isPlainSafe s && !f.isUnsafePlainShape s then s
+  else if f.isPlainSafe s && f.isPlainValueSafe s o.yaml12 true && !f.isUnsafePlainShape s then s
   else f.writeQuoted s
 
 /-- text written by `YamlSerializer::write_plain_or_quoted_value` -/
